@@ -19,6 +19,12 @@ inductive ValueKind where
   /-- an entry of a module-level cache that is stored BEFORE the stored object is complete (publish-before-fill): another
       thread can take the half-built object out of the cache -/
   | publishedIncomplete
+  /-- a process-wide container (module level, or captured by a wrapper that outlives its decorator) to which some function
+      adds entries and from which some function removes / clears them: its content reflects the operations in flight in
+      ALL threads (an "in progress" set, a bounded / evicting cache) -/
+  | transientEntries
+  /-- `if k in C: … C[k]` on such a container: another thread can remove `k` in between -/
+  | checkThenGet
   deriving DecidableEq, Repr
 
 structure SharedWrite where
@@ -40,6 +46,8 @@ def SharedWrite.safe (r : SharedWrite) : Bool :=
   | .perCall => false
   | .ownerName => false
   | .publishedIncomplete => false
+  | .transientEntries => false
+  | .checkThenGet => false
 
 /-- known-finding key of a site -/
 def SharedWrite.key (r : SharedWrite) : String := "shared-" ++ r.attr ++ ":" ++ r.file ++ ":" ++ r.func
